@@ -89,39 +89,33 @@ const char* ParseOffset(const char* p, int min_hour, int max_hour, int sign,
 
 // datetime = ( Jn | n | Mm.w.d ) [ / offset ]
 const char* ParseDateTime(const char* p, PosixTransition* res) {
-  if (p != nullptr && *p == ',') {
-    if (*++p == 'M') {
-      int month = 0;
-      if ((p = ParseInt(p + 1, 1, 12, &month)) != nullptr && *p == '.') {
-        int week = 0;
-        if ((p = ParseInt(p + 1, 1, 5, &week)) != nullptr && *p == '.') {
-          int weekday = 0;
-          if ((p = ParseInt(p + 1, 0, 6, &weekday)) != nullptr) {
-            res->date.fmt = PosixTransition::M;
-            res->date.m.month = static_cast<std::int_fast8_t>(month);
-            res->date.m.week = static_cast<std::int_fast8_t>(week);
-            res->date.m.weekday = static_cast<std::int_fast8_t>(weekday);
-          }
-        }
-      }
-    } else if (*p == 'J') {
-      int day = 0;
-      if ((p = ParseInt(p + 1, 1, 365, &day)) != nullptr) {
-        res->date.fmt = PosixTransition::J;
-        res->date.j.day = static_cast<std::int_fast16_t>(day);
-      }
-    } else {
-      int day = 0;
-      if ((p = ParseInt(p, 0, 365, &day)) != nullptr) {
-        res->date.fmt = PosixTransition::N;
-        res->date.n.day = static_cast<std::int_fast16_t>(day);
-      }
-    }
+  if (p == nullptr || *p != ',') return nullptr;  // the date is not optional
+  if (*++p == 'M') {
+    int month = 0;
+    int week = 0;
+    int weekday = 0;
+    if ((p = ParseInt(p + 1, 1, 12, &month)) == nullptr || *p != '.')
+      return nullptr;
+    if ((p = ParseInt(p + 1, 1, 5, &week)) == nullptr || *p != '.')
+      return nullptr;
+    if ((p = ParseInt(p + 1, 0, 6, &weekday)) == nullptr) return nullptr;
+    res->date.fmt = PosixTransition::M;
+    res->date.m.month = static_cast<std::int_fast8_t>(month);
+    res->date.m.week = static_cast<std::int_fast8_t>(week);
+    res->date.m.weekday = static_cast<std::int_fast8_t>(weekday);
+  } else if (*p == 'J') {
+    int day = 0;
+    if ((p = ParseInt(p + 1, 1, 365, &day)) == nullptr) return nullptr;
+    res->date.fmt = PosixTransition::J;
+    res->date.j.day = static_cast<std::int_fast16_t>(day);
+  } else {
+    int day = 0;
+    if ((p = ParseInt(p, 0, 365, &day)) == nullptr) return nullptr;
+    res->date.fmt = PosixTransition::N;
+    res->date.n.day = static_cast<std::int_fast16_t>(day);
   }
-  if (p != nullptr) {
-    res->time.offset = 2 * 60 * 60;  // default offset is 02:00:00
-    if (*p == '/') p = ParseOffset(p + 1, -167, 167, 1, &res->time.offset);
-  }
+  res->time.offset = 2 * 60 * 60;  // default offset is 02:00:00
+  if (*p == '/') p = ParseOffset(p + 1, -167, 167, 1, &res->time.offset);
   return p;
 }
 
